@@ -18,6 +18,8 @@ type RandOpt struct {
 	MultiPath bool
 	// Dep: add a dependency file.
 	Dep bool
+	// NoTemporal: no time / duration fields (C18 inserts the only one).
+	NoTemporal bool
 }
 
 var wordsA = []string{"Alpha", "Bravo", "Cargo", "Delta", "Ember", "Flint", "Grove", "Harbor", "Ivory", "Jolly", "Kite", "Lumen", "Maple", "Noble", "Opal", "Pilot",
@@ -55,7 +57,11 @@ func (g *randGen) scalar() ir.Scalar { return allScalars[g.r.Intn(len(allScalars
 // leafField draws a primitive-kind field (scalar, enum, time, duration, cast).
 func (g *randGen) leafField(allowColl bool) *ir.Field {
 	f := F(g.name())
-	switch k := g.r.Intn(20); {
+	k := g.r.Intn(20)
+	if g.opt.NoTemporal && k >= 11 && k < 17 {
+		k = g.r.Intn(11)
+	}
+	switch {
 	case k < 9:
 		Sc(g.scalar())(f)
 	case k < 11:
@@ -494,4 +500,45 @@ func Rename(e *Entry, name string) *Entry {
 		f.Dep.GoPackage = strings.Replace(f.Dep.GoPackage, old, name, -1)
 	}
 	return e
+}
+
+// Permute shuffles the declaration order of the fields of every message and of
+// the messages of the file (numbers, names and oneof membership are kept; the
+// comments travel with their fields).
+func Permute(e *Entry, r *rand.Rand) *Entry {
+	f := e.File
+	for _, m := range f.Messages {
+		r.Shuffle(len(m.Fields), func(i, j int) { m.Fields[i], m.Fields[j] = m.Fields[j], m.Fields[i] })
+	}
+	r.Shuffle(len(f.Messages), func(i, j int) { f.Messages[i], f.Messages[j] = f.Messages[j], f.Messages[i] })
+	e.Tags = append(e.Tags, "permuted")
+	return e
+}
+
+// Reachable returns the messages of the file reachable from a root (including it).
+func Reachable(f *ir.File, root string) []*ir.Message {
+	seen := map[string]bool{}
+	var out []*ir.Message
+	var walk func(name string, dep bool)
+	walk = func(name string, dep bool) {
+		key := fmt.Sprint(name, dep)
+		if seen[key] {
+			return
+		}
+		seen[key] = true
+		m := f.Msg(name, dep)
+		if m == nil {
+			return
+		}
+		if !dep {
+			out = append(out, m)
+		}
+		for _, fl := range m.Fields {
+			if fl.Kind == ir.KMessage && fl.CustomType == "" {
+				walk(fl.Ref, fl.RefDep || dep)
+			}
+		}
+	}
+	walk(root, false)
+	return out
 }
